@@ -25,11 +25,57 @@ JOB_TRUSTED = [
     "index hashes (parallel.HashIndex) are inputs of the job model; their generation and distinctness is C14",
 ]
 
+JOBSYNC_RULE = "jobsync: one Job (all parallelism shapes, strategies, maxAttempts 1-3, retry delays 0/5/60, timeouts at both levels incl. 0/unset/negative) driven op by op: start, real Reconciler.SyncOne, kubelet steps (schedule, run, succeed, fail, OOM, terminate, vanish), clock on the lattice around every deadline, user kill/delete, foreign Pods on task names, Job/Pod informer caches that lag by event prefixes, one-shot faults on every API verb; scripted corpus cases first; every history is driven to quiescence; non-trivial = the controller issued more than 2 API actions; distinct by (seed, case, #actions). jobpure: see C10"
+JOBSYNC_TRUSTED = [
+    "the API-server simulation harness/sim_api.go (name uniqueness, resourceVersion conflicts, status sub-resource split, finalizer-gated deletion, graceful Pod deletion, second-precision timestamps) and its mirror in Job/Sync.v (api_update_job, api_update_status, api_delete_pod, api_delete_job)",
+    "deletes of one sweep run in goroutines: their API order is canonicalised to ascending Pod name on both sides; a delete fault fails every delete of the pass",
+]
+
 PROPS = {
+    "C08": {
+        "props_file": "Props/C08.v",
+        "theorems": ["c08_creates_are_requests", "c08_request_sound", "c08_no_request_for_live_or_succeeded", "c08_gate", "c08_gate_means", "c08_stop_when_complete"],
+        "families": [{"name": "jobsync", "n_quick": 120, "n_thorough": 3000}, {"name": "jobpure", "n_quick": 800, "n_thorough": 40000}],
+        "rule": JOBSYNC_RULE,
+        "trusted": JOB_TRUSTED + JOBSYNC_TRUSTED,
+        "assumptions": ["history-level clauses (at most one live task per index, retries 0,1,2,..., delay) follow from the per-pass theorems only when the pass's caches cover the API state; with lagging caches they fail - findings F4, F17 (open), judged by the monitor"],
+        "level_text": "Per-pass theorems for every cached Job, Pod cache, API state, clock and fault set: every create is a request of ComputeMissingIndexesForCreation that is due; requests exist only for indexes without live/succeeded recorded task, with the next unused retry < maxAttempts and earliest = latest finish + delay; the creation gate. The whole reconcile pass is modelled (Job/Sync.v) and tied to the real Reconciler.SyncOne by the jobsync stream (API-server simulation, lagging caches, faults); history clauses are judged by an independent monitor.",
+        "level_note": "Trusted: Coq kernel + vm_compute, the harness's API-server simulation. Open findings F4, F16, F17 (cache lag / name binding).",
+    },
+    "C09": {
+        "props_file": "Props/C09.v",
+        "theorems": ["c09_adopt_or_refuse", "c09_same_request_until_recorded", "c09_listed_forever", "c09_tombstone_is_last_known_state", "c09_lost_only_if_unobserved", "c09_not_lost_refuted"],
+        "families": [{"name": "jobsync", "n_quick": 120, "n_thorough": 3000}, {"name": "jobpure", "n_quick": 800, "n_thorough": 40000}],
+        "rule": JOBSYNC_RULE,
+        "trusted": JOB_TRUSTED + JOBSYNC_TRUSTED,
+        "assumptions": [],
+        "level_text": "Theorems: one create per request on the deterministic name; adoption only of objects this Job controls, admission error otherwise; the same request until the task is recorded; recorded tasks stay listed with their last known state; a task is recorded as lost only if its Pod is absent from the observed Pods - refuted against the API truth under Pod-cache lag (F4). Crash/fault points: injected failures of every API verb and lagging caches in the jobsync stream (a crash is a pass that stops after an API call; the controller keeps no other state).",
+        "level_note": "Trusted: as C08. Open findings F4, F10, F16.",
+    },
+    "C12": {
+        "props_file": "Props/C12.v",
+        "theorems": ["c12_kill_guard", "c12_kill_not_early", "c12_should_kill_means", "c12_no_create_after_kill", "c12_kill_terminal", "c12_pending_guard", "c12_pending_disabled", "c12_pending_effective_value", "c12_force_guard"],
+        "families": [{"name": "jobsync", "n_quick": 120, "n_thorough": 3000}],
+        "rule": JOBSYNC_RULE,
+        "trusted": JOB_TRUSTED + JOBSYNC_TRUSTED,
+        "assumptions": ["no re-sync is armed for a future kill timestamp: the kill is carried out by the next Pod/Job event or resync (observation, DESIGN.md C12)"],
+        "level_text": "Per-pass guard theorems: kill sweep only after the kill timestamp (or a decided strategy) and only on unfinished, not-yet-deleting tasks; no create once a kill timestamp exists; Killed once all indexes are terminated; pending reaper only with a positive effective timeout, created+timeout <= now, not running/finished/deleting; force delete only with positive timeout, not forbidden, deletionTimestamp+timeout <= now. End-state clauses judged by the monitor at quiescence.",
+        "level_note": "Trusted: as C08. Open findings F4, F10 (unrecorded task survives the kill).",
+    },
+    "C13": {
+        "props_file": "Props/C13.v",
+        "theorems": ["c13_finalizer_order", "c13_ttl_not_early", "c13_ttl_effective_value", "c13_ttl_armed"],
+        "families": [{"name": "jobsync", "n_quick": 120, "n_thorough": 3000}],
+        "rule": JOBSYNC_RULE,
+        "trusted": JOB_TRUSTED + JOBSYNC_TRUSTED,
+        "assumptions": ["the API server removes an object whose deletionTimestamp is set when its last finalizer is removed (part of the simulation)"],
+        "level_text": "Theorems: the finalizer is removed only from a deleting Job and only when no task named in its status is in the Pod cache; the controller deletes a Job only when finished, not deleting, finish+TTL <= now (TTL = Job value else default); a finished Job with a stored TTL arms a re-sync. 'Job gone only after its tasks' is refuted under Pod-cache lag (F4c, reproduced).",
+        "level_note": "Trusted: as C08. Open finding F4c.",
+    },
     "C10": {
         "props_file": "Props/C10.v",
         "theorems": ["c10_success_sound", "c10_failed_sound", "c10_exclusive", "c10_decided_iff_complete", "c10_finished_no_live", "c10_succeeded_real"],
-        "families": [{"name": "jobpure", "n_quick": 1500, "n_thorough": 60000}, {"name": "jobsync", "n_quick": 120, "n_thorough": 3000, "optional": True}],
+        "families": [{"name": "jobpure", "n_quick": 1500, "n_thorough": 60000}, {"name": "jobsync", "n_quick": 120, "n_thorough": 3000}],
         "rule": "jobpure: generated (parallelism shape none/count/keys/matrix, strategy, maxAttempts, kill/deletion/admission-error flags, per-index attempt histories with every outcome incl. OOM, pre-recorded kills, flapping Pods, lost Pods, stored refs lagging the Pods, unsorted refs) evaluated by the real GenerateTaskRefs/UpdateJobTaskRefs/UpdateJobStatusFromTaskRefs/ComputeMissingIndexesForCreation; non-trivial = at least one ref or Pod; distinct by (shape, #refs, #pods, phase). jobsync: histories of the real reconciler (see C08)",
         "trusted": JOB_TRUSTED,
         "assumptions": ["refs whose index hash is not an index of the spec are outside c10_finished_no_live"],
@@ -39,7 +85,7 @@ PROPS = {
     "C11": {
         "props_file": "Props/C11.v",
         "theorems": ["c11_state_and_phase", "c11_phase_terminal_iff_finished", "c11_counters", "c11_tasks_never_dropped", "c11_times_never_cleared", "c11_times_kept_when_pod_gone"],
-        "families": [{"name": "jobpure", "n_quick": 1500, "n_thorough": 60000}, {"name": "jobsync", "n_quick": 120, "n_thorough": 3000, "optional": True}],
+        "families": [{"name": "jobpure", "n_quick": 1500, "n_thorough": 60000}, {"name": "jobsync", "n_quick": 120, "n_thorough": 3000}],
         "rule": "as C10; the jobsync monitor compares every stored Job version with its predecessor (startTime, finished condition, createdTasks, recorded timestamps)",
         "trusted": JOB_TRUSTED,
         "assumptions": [],
